@@ -503,6 +503,11 @@ func (g *progGen) tmplSelfdestruct() {
 	}
 	endow := []string{"", "", "5", "1000000000000000000"}[g.pick(4)]
 	did := g.deploy(d, endow)
+	// a second deployment of the same code: it lives on when the first one is destroyed
+	twin := -1
+	if g.chance(50) {
+		twin = g.deploy(d, "7")
+	}
 	if g.chance(30) {
 		g.add(TxSpec{From: g.pick(len(eoas)), To: refA(did), Sel: -1, Value: "3"}) // plain transfer in
 	}
@@ -528,6 +533,18 @@ func (g *progGen) tmplSelfdestruct() {
 		case 4:
 			g.call(refA(insp), 0, ben, "")
 		}
+		if twin >= 0 {
+			if g.chance(50) {
+				g.call(refA(twin), 1, nil, "")
+			} else {
+				g.call(refA(insp), g.pick(4), refA(twin), "")
+			}
+		}
+	}
+	if twin >= 0 {
+		g.forceBlock(true)
+		g.call(refA(twin), 1, nil, "")
+		g.call(refA(insp), 0, refA(twin), "")
 	}
 }
 
